@@ -62,6 +62,9 @@ def run_real(kind, dues, cancel, ops, many=0, selfresched=0):
                         s.advance_by(op[1] if kind != "historical" else timedelta(seconds=op[1]))
                     elif op[0] == "sleep":
                         s.sleep(op[1] if kind != "historical" else timedelta(seconds=op[1]))
+                    elif op[0] == "schedule":
+                        # more work for a scheduler that was idle or has been drained: it must run on the next start
+                        s.schedule_absolute(conv(op[1]), mk(len(handles) + 50))
                     else:
                         # TestScheduler.start is the test harness entry point (create/subscribe/dispose times);
                         # the run loop under test is the inherited VirtualTimeScheduler.start
@@ -138,6 +141,10 @@ def run_model(dues, cancel, ops, many=0, selfresched=0, bump=1.0):
                 continue
             clock += op[1]
             out.append((op, "ok", clock))
+        elif op[0] == "schedule":
+            pending.append((op[1], seq, len(dues) + 50, False))
+            seq += 1
+            out.append((op, "ok", clock))
         else:
             drain(None, True)
             out.append((op, "ok", clock))
@@ -159,6 +166,11 @@ def cases(prop):
                 for selfresched in (0, 2):
                     for ops in ([("start",)], [("advance_to", 2)], [("advance_to", 2), ("start",)], [("start",), ("start",)]):
                         yield kind, [2, 2], None, ops, many, selfresched
+            # an idle / drained scheduler can be started again: work scheduled after a run is run by the next one
+            for first in (("advance_to", 5), ("advance_by", 5), ("start",)):
+                for again in (("start",), ("advance_to", 9)):
+                    yield kind, [], None, [first, ("schedule", 7), again], 0, 0
+                    yield kind, [2], None, [first, ("schedule", 7), again], 0, 0
         return
     for kind in ("virtual", "test", "historical"):
         for n in range(0, 4):
